@@ -31,6 +31,11 @@ CONSTANTS GPUs,        \* set of GPU numbers
           MaxMig,      \* MC only: bound on migration requests
           Serial,      \* MC only: TRUE = the driver's discipline, one migration in flight globally
           Requesters,  \* MC only: the GPUs whose PMC receives migration requests
+          MCPages,     \* MC only: [g -> the frames of MCFrames[g] that hold a page initially]; the others are free
+                       \*   frames with stale contents.  A migration moves a page into a free frame; afterwards the
+                       \*   source frame is free and may be handed out again (A -> B -> A into reused frames)
+          SkipZero,    \* named deviation: TRUE = a returned chunk that is all zero is not written ("the destination
+                       \*   was just allocated and is zero") but counted as in place.  MC_PMC_skipzero.cfg must fail.
           AcceptGuard  \* "handling": the next request is taken when isHandlingPageMigration is false (the code)
                        \* "slot": ... when currentMigrationRequest is nil - a wrong guard kept as a named
                        \*   deviation: the two differ exactly while a completion is stalled on a full control
@@ -73,7 +78,8 @@ envv  == <<net, memPend, mem>>
 histv == <<issued, accepted, done, usedIds, pullSrc, mem0>>
 vars  == <<reqv, ownv, portv, envv, histv>>
 
-NoReq == [id |-> 0, from |-> 0, to |-> 0, n |-> 0, owner |-> 0, src |-> ""]
+\* snap: ghost - the contents of the source page when the request was issued
+NoReq == [id |-> 0, from |-> 0, to |-> 0, n |-> 0, owner |-> 0, src |-> "", snap |-> <<>>]
 
 Pull(id, s, d, a)   == [k |-> "pull", id |-> id, src |-> s, dst |-> d, addr |-> a, n |-> Unit, data |-> <<>>]
 Data(id, s, d, dat) == [k |-> "data", id |-> id, src |-> s, dst |-> d, addr |-> 0, n |-> 0, data |-> dat]
@@ -125,14 +131,27 @@ SendPull(g, c, id) ==
 
 \* processFromOutside/handleDataPullRsp + processDataPullRsp: a returned chunk becomes a
 \* local write at the address remembered for its id (unknown id: the code panics - no action).
+\* one chunk of the page is in place (processWriteDoneRspFromMemCtrl's bookkeeping)
+ChunkDone(g) ==
+  IF pending[g] = 1
+  THEN /\ pending' = [pending EXCEPT ![g] = -1]
+       /\ toCtrl'  = [toCtrl  EXCEPT ![g] = <<cur[g]>>]
+       /\ cur'     = [cur     EXCEPT ![g] = NoReq]
+  ELSE /\ pending' = [pending EXCEPT ![g] = @ - 1]
+       /\ UNCHANGED <<cur, toCtrl>>
+AllZero(d) == \A i \in 1..Len(d) : d[i] = 0
+
 RecvPullRsp(g) ==
   /\ remIn[g] # <<>> /\ Head(remIn[g]).k = "data"
   /\ LET m == Head(remIn[g]) IN
      /\ m.id \in DOMAIN wmap[g]
-     /\ writeQ' = [writeQ EXCEPT ![g] = Append(@, [addr |-> wmap[g][m.id], data |-> m.data])]
      /\ wmap'   = [wmap   EXCEPT ![g] = [i \in (DOMAIN @) \ {m.id} |-> @[i]]]
+     /\ IF SkipZero /\ AllZero(m.data)
+        THEN pending[g] > 0 /\ ChunkDone(g) /\ UNCHANGED writeQ
+        ELSE /\ writeQ' = [writeQ EXCEPT ![g] = Append(@, [addr |-> wmap[g][m.id], data |-> m.data])]
+             /\ UNCHANGED <<cur, pending, toCtrl>>
   /\ remIn' = [remIn EXCEPT ![g] = Tail(@)]
-  /\ UNCHANGED <<ctrlIn, cur, handling, toPull, pending, toCtrl, ctrlOut, ownv, remOut, memOut, memIn, envv, histv>>
+  /\ UNCHANGED <<ctrlIn, handling, toPull, ctrlOut, ownv, remOut, memOut, memIn, envv, histv>>
 
 \* sendWriteReqLocalMemPort (the code sends in queue order; any queued write may go first here)
 SendWrite(g, i, id) ==
@@ -186,13 +205,7 @@ RecvMem(g) ==
         /\ rspQ' = [rspQ EXCEPT ![g] = Append(@, [id |-> m.id, data |-> m.data, dst |-> requester[g]])]
         /\ UNCHANGED <<cur, pending, toCtrl>>
      \/ /\ m.k = "wd"      \* one chunk is in place (a write-done while idle: the code panics - no action)
-        /\ pending[g] > 0
-        /\ IF pending[g] = 1
-           THEN /\ pending' = [pending EXCEPT ![g] = -1]
-                /\ toCtrl'  = [toCtrl  EXCEPT ![g] = <<cur[g]>>]
-                /\ cur'     = [cur     EXCEPT ![g] = NoReq]
-           ELSE /\ pending' = [pending EXCEPT ![g] = @ - 1]
-                /\ UNCHANGED <<cur, toCtrl>>
+        /\ pending[g] > 0 /\ ChunkDone(g)
         /\ UNCHANGED rspQ
   /\ memIn' = [memIn EXCEPT ![g] = Tail(@)]
   /\ UNCHANGED <<ctrlIn, handling, toPull, wmap, writeQ, ctrlOut, readQ, requester, remOut, remIn, memOut, envv, histv>>
@@ -249,10 +262,15 @@ PullId(g, c)  == cur[g].id * 100 + c
 WriteId(g, i) == cur[g].id * 100 + 50 + ((writeQ[g][i].addr - cur[g].to) \div Unit)
 ReqsOf(s) == {s[i] : i \in 1..Len(s)}
 AllIssued == UNION {ReqsOf(issued[g]) : g \in GPUs}
-SrcFrames == {<<r.owner, r.from>> : r \in AllIssued}
-DstFrames == UNION {{<<g, r.to>> : r \in ReqsOf(issued[g])} : g \in GPUs}
-Fresh(g, b)  == <<g, b>> \notin (SrcFrames \cup DstFrames)     \* a newly allocated page
-Stable(g, b) == \A r \in ReqsOf(issued[g]) : r.to = b => r \in ReqsOf(done[g])  \* not being written
+DoneAll == UNION {ReqsOf(done[g]) : g \in GPUs}
+\* frame <<g, b>> holds a page: it did initially or a migration put one there, and no migration took it away since
+Holds(g, b) == (IF b \in MCPages[g] THEN 1 ELSE 0)
+               + Cardinality({r \in ReqsOf(done[g]) : r.to = b}) - Cardinality({r \in DoneAll : r.owner = g /\ r.from = b}) = 1
+\* ... is the source or the destination of a migration that was issued and is not complete
+InFlight(g, b) == \/ \E r \in ReqsOf(issued[g]) \ ReqsOf(done[g]) : r.to = b
+                  \/ \E r \in AllIssued \ DoneAll : r.owner = g /\ r.from = b
+SrcOK(g, b) == Holds(g, b) /\ ~InFlight(g, b)     \* a page that is not being moved
+DstOK(g, b) == ~Holds(g, b) /\ ~InFlight(g, b)    \* a free frame (fresh or used before: stale contents)
 Outstanding == \E g \in GPUs : Len(issued[g]) # Len(done[g])
 NumIssued == Cardinality(AllIssued)
 
@@ -262,8 +280,9 @@ MCEnvMig ==
   /\ \E g \in Requesters, o \in GPUs, n \in 1..FrameChunks :
        /\ o # g
        /\ \E sb \in MCFrames[o], db \in MCFrames[g] :
-            /\ Stable(o, sb) /\ Fresh(g, db)
-            /\ EnvMig(g, [id |-> NextReqId, from |-> sb, to |-> db, n |-> n, owner |-> o, src |-> "CP"])
+            /\ SrcOK(o, sb) /\ DstOK(g, db)
+            /\ EnvMig(g, [id |-> NextReqId, from |-> sb, to |-> db, n |-> n, owner |-> o, src |-> "CP",
+                          snap |-> ReadMem(o, sb, n * Unit)])
 
 CompNext ==
   \E g \in GPUs :
@@ -279,7 +298,10 @@ EnvServe ==
 
 Next == CompNext \/ EnvServe \/ MCEnvMig
 
-MCMem == [g \in GPUs |-> [a \in UNION {b..(b + FrameChunks * Unit - 1) : b \in MCFrames[g]} |-> 100 * g + a]]
+\* every cell has a value of its own, except that the first chunk of every frame is all zero (frames start at
+\* multiples of 8): pages have zero chunks, free frames hold non-zero garbage behind them
+MCMem == [g \in GPUs |-> [a \in UNION {b..(b + FrameChunks * Unit - 1) : b \in MCFrames[g]} |->
+            IF a % 8 < Unit /\ a - (a % 8) \in MCPages[g] THEN 0 ELSE 100 * g + a]]
 Init == EmptyInit(MCMem)
 
 Fairness ==
@@ -301,10 +323,13 @@ FairSpec == Spec /\ Fairness
 IsPrefix(s, t) == Len(s) <= Len(t) /\ \A i \in 1..Len(s) : s[i] = t[i]
 PageBytes(r) == 0..(r.n * Unit - 1)
 
-\* a page reported complete is, byte for byte, the source page
+\* a page reported complete is, byte for byte, the source page as it was when the request was issued - the WHOLE
+\* page, whatever the destination frame held before (until a later request re-uses that frame)
 ContentsCopied ==
   \A g \in GPUs : \A i \in 1..Len(done[g]) :
-    LET r == done[g][i] IN \A b \in PageBytes(r) : mem[g][r.to + b] = mem[r.owner][r.from + b]
+    LET r == done[g][i] IN
+      (\A j \in (i + 1)..Len(issued[g]) : issued[g][j].to # r.to) =>
+        \A b \in PageBytes(r) : mem[g][r.to + b] = r.snap[b + 1]
 
 \* a cell only ever changes inside the destination page of an accepted migration, and only to
 \* the byte of the source page that belongs there
@@ -314,7 +339,7 @@ NothingElseChanged ==
       \E i \in 1..Len(accepted[g]) :
         LET r == accepted[g][i] IN
           /\ a >= r.to /\ a < r.to + r.n * Unit
-          /\ mem[g][a] = mem[r.owner][r.from + (a - r.to)]
+          /\ mem[g][a] = r.snap[a - r.to + 1]
 
 \* completion is reported once per request, in request order, never for a request not issued
 CompleteOnce ==
